@@ -246,6 +246,8 @@ def faithful_clone(F, R, rule, im):
                 if s["k"] == "assign" and s["rv"]["k"] == "agg" and s["rv"]["ak"] == "adt" and s["rv"].get("fields"):
                     for i, o in enumerate(s["rv"]["ops"]):
                         fld = s["rv"]["fields"][i]
+                        if str(fld).isdigit():
+                            continue        # tuple-like (Some(..), Ok(..)): no field name to compare
                         for x in B.origins(o):
                             if x[0] == "param" and x[2] and not str(x[2][0]).startswith("@") and not str(x[2][0]).isdigit() and x[2][0] != fld \
                                     and fld in {l for a in F.adts.values() for v in a["variants"] for l in [f_.get("name") for f_ in v.get("fields", [])]}:
